@@ -4,6 +4,20 @@ package kern
 // non-blocking attempt that commits when it succeeds.
 type SelCase interface{ Try() bool }
 
+// RecvPeer / SendPeer let the kernel complete a rendezvous on an UNBUFFERED
+// channel between a task blocked in a select and another task polling the
+// opposite direction: in Go a non-blocking send succeeds when a receiver is
+// parked in a select on that channel (and vice versa); two pollers would never
+// meet otherwise.
+type RecvPeer interface {
+	ChanID() uintptr
+	Deliver(v any) bool
+}
+type SendPeer interface {
+	ChanID() uintptr
+	Take() (any, bool)
+}
+
 // Select is the simulation-owned select: clauses are polled in a seed-chosen
 // order (the runtime's choice among ready clauses is random), and a task with
 // no ready clause blocks in the kernel until something may have changed.
@@ -28,7 +42,55 @@ func (k *Kernel) Select(hasDefault bool, cases []SelCase) int {
 		}
 		t.polledAt = k.version
 		t.Site = "select(blocked)"
+		t.selCases, t.selFired = cases, -1
 		t.setState(BlockedSelect)
 		k.park(t)
+		t.selCases = nil
+		if t.selFired >= 0 {
+			return t.selFired // completed by a rendezvous with another task
+		}
 	}
+}
+
+// RendezvousSend: a task polls a send on the unbuffered channel id; if another
+// task is blocked in a select with a receive clause on it, hand the value over.
+//
+//go:norace
+func (k *Kernel) RendezvousSend(id uintptr, v any) bool {
+	me := k.Me()
+	for _, o := range k.tasks {
+		if o == me || o.State() != BlockedSelect || o.selFired >= 0 {
+			continue
+		}
+		for i, c := range o.selCases {
+			if rp, ok := c.(RecvPeer); ok && rp.ChanID() == id && rp.Deliver(v) {
+				o.selFired = i
+				o.setState(Parked)
+				return true
+			}
+		}
+	}
+	return false
+}
+
+// RendezvousRecv: the mirror image.
+//
+//go:norace
+func (k *Kernel) RendezvousRecv(id uintptr) (any, bool) {
+	me := k.Me()
+	for _, o := range k.tasks {
+		if o == me || o.State() != BlockedSelect || o.selFired >= 0 {
+			continue
+		}
+		for i, c := range o.selCases {
+			if sp, ok := c.(SendPeer); ok && sp.ChanID() == id {
+				if v, ok := sp.Take(); ok {
+					o.selFired = i
+					o.setState(Parked)
+					return v, true
+				}
+			}
+		}
+	}
+	return nil, false
 }
